@@ -507,7 +507,7 @@ def run(tier, V):
     cov['evaluations'] = nd + nren + ns
     cov['distinct_nontrivial'] = nontriv + nshaped
     cov['exhaustive'] = True
-    cov['rule'] = ('dir_reorder on ALL lines up to length %d over {a,1,space,-,beh,alef,shadda,ZWNJ} (+%d random longer mixes incl. mark patterns, lines around lim, and runs of 200-600 characters around the matcher's depth limit of 256: longer ones are the recorded finding) x td -2..2: permutation, '
+    cov['rule'] = ('dir_reorder on ALL lines up to length %d over {a,1,space,-,beh,alef,shadda,ZWNJ} (+%d random longer mixes incl. mark patterns, lines around lim, and runs of 200-600 characters around the depth limit of the matcher (256): longer ones are the recorded finding) x td -2..2: permutation, '
                    'terminator last, guard cell untouched, base direction, run-reversal model; the same lines through ren_position for order 1/2, lim 3/256; every table letter x 8 previous x 9 next '
                    'contexts x diacritics x shape on/off against Unicode decomposition data; the real binary moves by l/h/N| over such lines (also after cancelled prompts).  non-trivial = a line in which the model reverses a run / a line in which a letter was reshaped.' % (maxlen, nrand))
     cov['samples'] = [{'line': 'a بب1 ا-ب c\n', 'td': 0}, {'line': lines[-3], 'td': -1}, {'shape_line': slines[777 % len(slines)]}]
